@@ -50,6 +50,8 @@ type Scenario struct {
 	HandlerDelayMs int               `json:"handler_delay_ms"`
 	CapsDelayMs    int               `json:"caps_delay_ms"`
 	Wildcard       bool              `json:"wildcard"`   // corebgp listens on 0.0.0.0 instead of 127.0.0.1
+	StartStalled   bool              `json:"start_stalled"` // the remote's accept queue is full before the peer starts
+	StartRefused   bool              `json:"start_refused"` // nothing listens on the remote's port before the peer starts
 	FirstOnly      bool              `json:"first_only"` // plugin script (on_open, handler, delays) applies to the first session only
 }
 
@@ -644,7 +646,27 @@ func (r *runner) step(st []any) error {
 			}
 			break
 		}
-	case "refuse":
+	case "refuse": // true: nothing listens on the remote's port (connection refused); false: listen again
+		if st[1].(bool) {
+			r.rlis.Close()
+		} else {
+			var err error
+			lc := net.ListenConfig{Control: func(network, address string, c syscall.RawConn) error {
+				return c.Control(func(fd uintptr) { syscall.SetsockoptInt(int(fd), syscall.SOL_SOCKET, syscall.SO_REUSEADDR, 1) }) // nolint: errcheck
+			}}
+			for i := 0; i < 50; i++ {
+				r.rlis, err = lc.Listen(context.Background(), "tcp", net.JoinHostPort(r.remote.String(), fmt.Sprint(r.rport)))
+				if err == nil {
+					break
+				}
+				time.Sleep(2 * time.Millisecond)
+			}
+			if err != nil {
+				return err
+			}
+			go r.acceptLoop(r.rlis)
+		}
+	case "reset_accepted": // accept-then-reset behaviour for the following outbound connections
 		r.refuse.Store(st[1].(bool))
 	case "arm":
 		name := st[1].(string)
@@ -773,6 +795,15 @@ func runScenario(sc *Scenario) *Result {
 	}
 	r.rport = r.rlis.Addr().(*net.TCPAddr).Port
 	go r.acceptLoop(r.rlis)
+	if sc.StartStalled {
+		if err := r.step([]any{"stall", true}); err != nil {
+			res.Error = "stall: " + err.Error()
+			return res
+		}
+	}
+	if sc.StartRefused {
+		r.rlis.Close()
+	}
 	if err := r.addPeer(); err != nil {
 		res.Error = "AddPeer: " + err.Error()
 		return res
